@@ -4,7 +4,7 @@ stored key equals its own from-scratch key (judge tag C04:incremental-key), and 
 from checks import chesscore
 from checks.c01 import RULE
 def run(ctx):
-    chesscore.run_property(ctx, 'Props/C04.v', ['C04:'], ['MK', 'K', 'MH'],
+    chesscore.run_property(ctx, 'Props/C04.v', ['C04:'], ['AMK', 'K', 'AMH'],
         'after a move the incrementally maintained key differs from the key recomputed from scratch', RULE)
 def replay(ctx, path):
     return chesscore.replay_pos(ctx, path, 'Props/C04.v')
